@@ -75,6 +75,14 @@ CHECKS.update({
    ref="DESIGN.md §4 C20"),
 })
 
+CHECKS.update({
+ "C18": dict(
+   technique="bounded-exhaustive enumeration plus property-based testing (proptest): independent JVMS 4.2/4.3 recogniser as reference model, print/parse inverse laws, split/join inverse laws",
+   text="Exhaustive over bounded string spaces (every string up to length 6 - thorough: 7 - over the 16-symbol descriptor alphabet for the three descriptor parsers; every string up to length 5 over the name alphabet and up to length 4 over the descriptor alphabet for the seven name predicates and the inner-class split/join), exploration beyond the bound (generated structures up to 255 dimensions, long and non-ASCII names, single-edit neighbours of members). Accept iff member, parsed structure == reference structure, write(parse(s)) == s, parse(write(t)) == t.",
+   note="Trusted: the harness recogniser (written from JVMS 4.2.1, 4.2.2, 4.3.2, 4.3.3). Exhaustive only inside the stated bounds.",
+   ref="DESIGN.md §4 C18"),
+})
+
 NOT_YET = {
 }
 
